@@ -98,7 +98,7 @@ func round(r *vh.Run, i int, ov *overlap) {
 	if i%3 == 0 {
 		c.Storage.GC.GracePeriod = time.Hour // collections run but nothing expires: long-lived sessions and repositories
 	}
-	if i%2 == 1 {
+	if i%4 == 1 || i%4 == 2 || i%8 == 3 { // every store kind gets both kinds of logger
 		// a logger that formats everything it is given (as `serve -v debug` does): what is handed to the logger is read
 		c.Log = slog.New(slog.NewTextHandler(io.Discard, &slog.HandlerOptions{Level: slog.LevelDebug - 8}))
 		r.Count("rounds_with_a_formatting_logger", 1)
